@@ -224,8 +224,15 @@ def structural_variant(rng, ts, ops=None):
     return ts, ops
 
 
-def any_ts(rng, diploid=False, mutations=True):
-    """the family's default mixture"""
+def any_ts(rng, diploid=False, mutations=True, max_edges=120):
+    """the family's default mixture (bounded size: the models are evaluated inside Coq)"""
+    while True:
+        ts, kind = _any_ts(rng, diploid, mutations)
+        if ts.num_edges <= max_edges and ts.num_mutations <= 150:
+            return ts, kind
+
+
+def _any_ts(rng, diploid=False, mutations=True):
     r = rng.random()
     if r < 0.4:
         ts = random_dag_ts(rng, diploid=diploid, internal_samples=rng.random() < 0.4,
@@ -288,3 +295,171 @@ def describe(ts, extra=None):
 def summary(ts):
     return {"nodes": int(ts.num_nodes), "edges": int(ts.num_edges), "trees": int(ts.num_trees),
             "muts": int(ts.num_mutations), "L": int(ts.sequence_length)}
+
+
+# ------------------------------------------------------------------ Tree-API references
+def ref_mutation_edges(ts):
+    """edge above each mutation's node at its position (-1 above a root / isolated)"""
+    out = []
+    tree = ts.first() if ts.num_trees else None
+    pos = ts.sites_position[ts.mutations_site]
+    for m in range(ts.num_mutations):
+        tree.seek(pos[m])
+        out.append(int(tree.edge(int(ts.mutations_node[m]))))
+    return out
+
+
+def ref_tallies(ts, mask=None, size_biased=False):
+    """(edges_mutations, edges_span, mutations_edge) by direct tally over the local trees;
+    weights = number of nodes of `mask` in the subtree (computed by traversal, no sweep)"""
+    E = ts.num_edges
+    medge = ref_mutation_edges(ts)
+    counts = [0] * E
+    spans = [0] * E
+    if mask is None:
+        mask = is_sample_list(ts)
+    if not size_biased:
+        for e in medge:
+            if e >= 0:
+                counts[e] += 1
+        for e in ts.edges():
+            spans[e.id] = int(e.right) - int(e.left)
+        return counts, spans, medge
+
+    def below(tree, u):
+        return sum(1 for v in tree.nodes(u) if mask[v])
+    pos = ts.sites_position[ts.mutations_site]
+    for tree in ts.trees():
+        l, r = tree.interval
+        for u in range(ts.num_nodes):
+            e = tree.edge(u)
+            if e >= 0:
+                spans[e] += below(tree, u) * (int(r) - int(l))
+        for m in range(ts.num_mutations):
+            if l <= pos[m] < r and medge[m] >= 0:
+                counts[medge[m]] += below(tree, int(ts.mutations_node[m]))
+    return counts, spans, medge
+
+
+def individual_pairs(ts, unphased):
+    """{individual: (node0, node1)} for the unphased individuals (diploid ones)"""
+    out = {}
+    for ind in ts.individuals():
+        if unphased[ind.id] and len(ind.nodes) == 2:
+            out[ind.id] = (int(ind.nodes[0]), int(ind.nodes[1]))
+    return out
+
+
+def ref_blocks_spec(ts, unphased):
+    """the property's definition: per unphased individual, maximal runs of trees over which
+    BOTH leaf branches exist and stay the same edges; (span, #singletons inside) per run, and
+    for each singleton of the individual the run it falls in (None outside every run).
+    Returns {ind: {"blocks": {frozenset(pair): (count, span)}, "mut": {m: frozenset or None}, "lone": bool}}"""
+    pos = ts.sites_position[ts.mutations_site]
+    out = {}
+    for i, (n0, n1) in individual_pairs(ts, unphased).items():
+        runs = []           # [left, right, pair]
+        lone = False
+        for tree in ts.trees():
+            l, r = int(tree.interval[0]), int(tree.interval[1])
+            a, b = int(tree.edge(n0)), int(tree.edge(n1))
+            if (a >= 0) != (b >= 0):
+                lone = True
+            if a >= 0 and b >= 0:
+                pair = frozenset((a, b))
+                if runs and runs[-1][2] == pair and runs[-1][1] == l:
+                    runs[-1][1] = r
+                else:
+                    runs.append([l, r, pair])
+        blocks = {}
+        mut = {}
+        muts_i = [m for m in range(ts.num_mutations) if int(ts.mutations_node[m]) in (n0, n1)]
+        for m in muts_i:
+            mut[m] = None
+        for l, r, pair in runs:
+            inside = [m for m in muts_i if l <= pos[m] < r]
+            blocks[pair] = (len(inside), r - l)
+            for m in inside:
+                mut[m] = pair
+        out[i] = {"blocks": blocks, "mut": mut, "lone": lone}
+    return out
+
+
+def ref_blocks_k8(ts, unphased):
+    """per-individual replay of the flush/open rule INCLUDING the behaviour of finding K8
+    (singletons seen while only one leaf branch exists are carried into the next flushed block;
+    a block opened by a lone branch keeps its id).  Same result shape as ref_blocks_spec plus
+    "unflushed": number of block ids opened and never flushed (the kernel then asserts)."""
+    pos = ts.sites_position[ts.mutations_site]
+    out = {}
+    for i, (n0, n1) in individual_pairs(ts, unphased).items():
+        cur = [-1, -1]
+        open_id = None
+        nxt = 0
+        start = None
+        count = 0
+        flushed = {}     # local id -> (pair, count, span)
+        mut = {}
+        muts_i = [m for m in range(ts.num_mutations) if int(ts.mutations_node[m]) in (n0, n1)]
+        muts_i.sort(key=lambda m: pos[m])
+        mi = 0
+        intervals = [(int(t.interval[0]), int(t.interval[1]), int(t.edge(n0)), int(t.edge(n1))) for t in ts.trees()]
+        intervals.append((int(ts.sequence_length), int(ts.sequence_length), -1, -1))
+        for l, r, a, b in intervals:
+            new = [a, b]
+            removed = [k for k in (0, 1) if cur[k] >= 0 and cur[k] != new[k]]
+            if removed:
+                if cur[0] >= 0 and cur[1] >= 0:
+                    flushed[open_id] = (frozenset(cur), count, l - start)
+                    open_id, start, count = None, None, 0
+                for k in removed:
+                    cur[k] = -1
+            for k in (0, 1):
+                if new[k] >= 0 and new[k] != cur[k]:
+                    cur[k] = new[k]
+                    start = l
+                    if open_id is None:
+                        open_id = nxt
+                        nxt += 1
+            while mi < len(muts_i) and pos[muts_i[mi]] < r:
+                mut[muts_i[mi]] = open_id
+                count += 1
+                mi += 1
+        for m in muts_i[mi:]:
+            mut[m] = None
+        blocks = {}
+        mutp = {}
+        for k, (pair, c, s) in flushed.items():
+            blocks[pair] = (c, s)
+        for m, k in mut.items():
+            mutp[m] = flushed[k][0] if (k is not None and k in flushed) else (None if k is None else "unflushed")
+        out[i] = {"blocks": blocks, "mut": mutp, "unflushed": nxt - len(flushed)}
+    return out
+
+
+def impl_blocks_by_individual(ts, unphased, stats, bedges, mblock):
+    """reshape the kernel's output per individual for comparison with the references"""
+    out = {}
+    pairs = individual_pairs(ts, unphased)
+    node_ind = {}
+    for i, (n0, n1) in pairs.items():
+        node_ind[n0] = i
+        node_ind[n1] = i
+        out[i] = {"blocks": {}, "mut": {}}
+    rows = []
+    for b in range(len(bedges)):
+        e0, e1 = int(bedges[b][0]), int(bedges[b][1])
+        i = node_ind.get(int(ts.edges_child[e0]))
+        pair = frozenset((e0, e1))
+        rows.append((i, pair))
+        if i is not None:
+            out[i]["blocks"][pair] = (int(stats[b][0]), int(stats[b][1]))
+    for m in range(ts.num_mutations):
+        i = node_ind.get(int(ts.mutations_node[m]))
+        if i is None:
+            if mblock[m] != -1:
+                out.setdefault("stray", []).append(m)
+            continue
+        b = int(mblock[m])
+        out[i]["mut"][m] = None if b == -1 else (rows[b][1] if 0 <= b < len(rows) else "out-of-range")
+    return out
